@@ -162,6 +162,61 @@ class Tr:
                 return f"Rhs.call {lstr(name)} {llist([lstr(v) for v in self.arg_vars(node)])}", node
         return "Rhs.pure", None
 
+    def leaves(self, node):
+        """the sub-expressions whose value may flow into `node`: both arms of a conditional expression, the operands of
+        `a or b`, the elements of a tuple/list/set/dict display"""
+        if isinstance(node, ast.IfExp):
+            return self.leaves(node.body) + self.leaves(node.orelse)
+        if isinstance(node, ast.BoolOp):
+            return [l for v in node.values for l in self.leaves(v)]
+        if isinstance(node, (ast.Tuple, ast.List, ast.Set)):
+            return [l for v in node.elts for l in self.leaves(v)]
+        if isinstance(node, ast.Dict):
+            return [l for v in node.values if v is not None for l in self.leaves(v)]
+        if isinstance(node, ast.Starred):
+            return self.leaves(node.value)
+        if isinstance(node, ast.NamedExpr):
+            return self.leaves(node.value)
+        return [node]
+
+    def rhs_multi(self, value):
+        """-> (pre-statements, Rhs term, consumed Call nodes) for an expression that may combine several sources"""
+        ls = self.leaves(value)
+        if len(ls) == 1 and ls[0] is value:
+            r, consumed = self.rhs(value)
+            return [], r, [consumed] if consumed is not None else []
+        pre, parts, consumed = [], [], []
+        for l in ls:
+            r, c = self.rhs(l)
+            if c is not None:
+                consumed.append(c)
+            if r in ("Rhs.pure", "Rhs.fresh"):
+                continue
+            self.tmp = getattr(self, "tmp", 0) + 1
+            t = f"_t{self.tmp}"
+            pre.append(f"Stmt.assign {lstr(t)} ({r})")
+            parts.append(t)
+        return pre, (f"Rhs.build {llist([lstr(p) for p in parts])}" if parts else "Rhs.fresh"), consumed
+
+    def effects_skip(self, node, consumed):
+        out = []
+        for e in self.effects(node):
+            out.append(e)
+        if not consumed:
+            return out
+        # drop the exec statements of calls already represented as Rhs.call
+        drop = set()
+        for c in consumed:
+            name = self.call_name(c.func)
+            drop.add(f"Stmt.exec {lstr(name)} {llist([lstr(v) for v in self.arg_vars(c)])}")
+        res = []
+        for e in out:
+            if e in drop:
+                drop.discard(e)
+                continue
+            res.append(e)
+        return res
+
     def seq(self, stmts):
         stmts = [s for s in stmts if s != "Stmt.skip"]
         if not stmts:
@@ -181,9 +236,9 @@ class Tr:
             targets = st.targets if isinstance(st, ast.Assign) else [st.target]
             value = st.value
             out = []
-            r, consumed = self.rhs(value) if value is not None else ("Rhs.pure", None)
+            pre, r, consumed = self.rhs_multi(value) if value is not None else ([], "Rhs.pure", [])
             if value is not None:
-                out += self.effects(value, skip=consumed)
+                out += self.effects_skip(value, consumed) + pre
             for t in targets:
                 names = [t] if not isinstance(t, (ast.Tuple, ast.List)) else list(t.elts)
                 for n in names:
@@ -220,8 +275,8 @@ class Tr:
         if isinstance(st, ast.Return):
             if st.value is None:
                 return "Stmt.ret (Rhs.pure)"
-            r, consumed = self.rhs(st.value)
-            return self.seq(self.effects(st.value, skip=consumed) + [f"Stmt.ret ({r})"])
+            pre, r, consumed = self.rhs_multi(st.value)
+            return self.seq(self.effects_skip(st.value, consumed) + pre + [f"Stmt.ret ({r})"])
         if isinstance(st, ast.Raise):
             return "Stmt.raise"
         if isinstance(st, ast.FunctionDef):
